@@ -861,7 +861,10 @@ fn do_command_substitution_for_dollar(sh: &mut Shell, tokens: &mut types::Tokens
                 }
                 Err(e) => {
                     println_stderr!("cicada: {}", e);
-                    continue;
+                    // an inner command that cannot be planned yields an
+                    // empty replacement (a `continue` here would re-scan
+                    // the unchanged word forever)
+                    types::CommandResult::new()
                 }
             };
 
